@@ -15,8 +15,8 @@ TRUSTED = ["translators/opclasses.py (AST translation of the algebra classes int
            "correspondence harness harness/c14_impl.py + theories/Algebra/Corr.v (exact complex-rational evaluation of the "
            "regenerated tables inside Coq, compared at 1e-9 relative)"]
 ASSUMPTIONS = ["dtype promotion (single/double, real/complex result types) is only exercised by the search",
-               "transposes/adjoints of discrete operators, GeneralizedBlockedOperator and the block matrix of BlockedOperator are only "
-               "exercised by the search",
+               "adjoints (conjugation), GeneralizedBlockedOperator and transposes of composite discrete operators are only exercised "
+               "by the search",
                "operands of the correspondence run are stub-assembled operators with exactly known matrices; real kernels "
                "enter in the thorough search only"]
 
@@ -146,10 +146,24 @@ def correspond(ctx):
         "Definition gcases : list (ugf QC * gexpected) := [\n%s]." % ";\n".join(
             "(%s, %s)" % (_gexp(c["expr"]), gexpd(c)) for c in gcases),
         "Eval vm_compute in (failing (gfcase_ok E) gcases).", ""])))
+    bbcases = res.get("bb_cases", [])
+    if res.get("bb_env"):
+        be = res["bb_env"]
+        bbenv = "Definition E : cenv := {|\n ce_atoms := [%s];\n ce_dims := [%s];\n ce_invmass := [%s];\n ce_mass := [];\n" \
+                " ce_patoms := [] |}." % (
+                    ";\n  ".join("((%d, %d, %d)%%nat, %s)" % (a["spaces"][0], a["spaces"][1], a["spaces"][2], _mat(a["mat"]))
+                                 for a in be["atoms"]),
+                    "; ".join("(%s, %d)%%nat" % (k, v) for k, v in be["dims"].items()),
+                    ";\n  ".join("(%d%%nat, %d%%nat, %s)" % (m["range"], m["dual"], _mat(m["mat"])) for m in be["invmass"]))
+        bodies.append(("c14bb", "\n".join(hdr[:4] + [bbenv,
+            "Definition bbcases : list (nat * uexp QC * list QC * expected) := [\n%s]." % ";\n".join(
+                "(%d%%nat, %s, [%s], %s)" % (c["what"], _uexp(c["expr"]), "; ".join(_qc(x) for x in c.get("coef", [])),
+                                           _expected(c, "mat")) for c in bbcases),
+            "Eval vm_compute in (failing (bbcase_ok E) bbcases).", ""])))
     from concurrent.futures import ThreadPoolExecutor
     with ThreadPoolExecutor(max_workers=len(bodies)) as ex:
         outs = list(ex.map(lambda nb: ctx.coq_eval(nb[0], nb[1], timeout=1200), bodies))
-    ctx.corr["evaluations"] = len(cases) + len(pcases) + len(gcases)
+    ctx.corr["evaluations"] = len(cases) + len(pcases) + len(gcases) + len(bbcases)
     ctx.corr["distinct_nontrivial"] = len({c["show"] for c in cases if c["result"] == "ok" and c["expr"][0] != "atom"}) + \
         len({c["show"] for c in pcases if c["expr"][0] != "atom"}) + \
         len({c["show"] for c in gcases if c["expr"][0] != "atom" and c["result"] == "ok"})
@@ -167,6 +181,10 @@ def correspond(ctx):
     for c in gcases:
         k = "grid function -> %s" % c["result"]
         hist[k] = hist.get(k, 0) + 1
+    for c in bbcases:
+        k = "blocked %s %s -> %s" % (["weak", "strong", "apply"][c["what"]], "well-typed" if c["typed"] else "ill-typed",
+                                     c["result"])
+        hist[k] = hist.get(k, 0) + 1
     ctx.corr["histogram"] = hist
     ctx.corr["samples"] = [{"expr": c["show"], "result": c["result"]} for c in (cases[:3] + pcases[:3])]
     if any(o is None for o in outs):
@@ -177,11 +195,14 @@ def correspond(ctx):
             ctx.problem("correspondence", "could not parse model evaluation output", o[-2000:])
             return
         for i in [int(x) for x in re.findall(r'\d+', blocks[0])]:
-            c = cases[k + nchunk * i] if k < nchunk else (pcases[i] if k == nchunk else gcases[i])
+            c = cases[k + nchunk * i] if k < nchunk else (pcases[i] if k == nchunk else (
+                gcases[i] if k == nchunk + 1 else bbcases[i]))
+            kindname = "boundary expression" if k < nchunk else ("potential expression" if k == nchunk else (
+                "grid-function expression" if k == nchunk + 1 else
+                "blocked expression (%s)" % {0: "weak form", 1: "strong form", 2: "applied to a function list"}[c["what"]]))
             ctx.corr["disagreements"] += 1
             ctx.problem("correspondence", "model (translated classes) and library disagree on %s %s -> library: %s" % (
-                "boundary expression" if k < nchunk else ("potential expression" if k == nchunk else
-                                                          "grid-function expression"), c["show"], c["result"]))
+                kindname, c["show"], c["result"]))
 
 
 def search(ctx, strength):
@@ -215,7 +236,9 @@ META = {
                   "complex vector splits into real and imaginary parts; blocked pack/unpack are inverse and projection "
                   "unpacking is right iff sliced by dual dof counts (refuted with witness for the pinned recipe); the dense block "
                   "matrix of a BlockedDiscreteOperator (None = zero block) times x equals the blockwise matvec; Dense/Sparse/"
-                  "Diagonal/RankOne transposes have the transposed matrix; every "
+                  "Diagonal/RankOne transposes have the transposed matrix; blocked operators (Sum/Scaled/Product/strong form/"
+                  "B*[f]) over the regenerated blocked tables: same denotation and typing theorems with space lists, strong form = "
+                  "blockdiag(M(range_i,dual_i)^-1) weak; every "
                   "attribute/method name used on self or operands in the five algebra files resolves "
                   "(the regenerated list of unresolved names is empty); potential algebra (sums, differences, scalar multiples "
                   "keep space/components/points and evaluate to the matrix expression, ValueError iff incompatible); "
